@@ -236,6 +236,97 @@ func lateSendProbes(c *Ctx) {
 	}
 }
 
+// foreignTimeoutProbe: each protocol has one timeout header. The other protocol's header on a
+// request means nothing: no deadline for the handler, no rejection (round 9, C10-mk). And the
+// timeout a client sends comes from its context alone - not from http.Client.Timeout (C10-ml).
+func foreignTimeoutProbe(c *Ctx) {
+	for _, proto := range []string{"connect", "grpc", "grpcweb"} {
+		for _, kind := range []string{"unary", "client"} {
+			for _, val := range []string{"5S", "100m", "abc", "5000", "99999999999"} {
+				ran, has := false, false
+				observe := func(ctx context.Context) { _, has = ctx.Deadline(); ran = true }
+				var h http.Handler
+				if kind == "unary" {
+					h = connect.NewUnaryHandler("/s/m", func(ctx context.Context, r *connect.Request[emptypb.Empty]) (*connect.Response[emptypb.Empty], error) {
+						observe(ctx)
+						return connect.NewResponse(&emptypb.Empty{}), nil
+					})
+				} else {
+					h = connect.NewClientStreamHandler("/s/m", func(ctx context.Context, s *connect.ClientStream[emptypb.Empty]) (*connect.Response[emptypb.Empty], error) {
+						observe(ctx)
+						return connect.NewResponse(&emptypb.Empty{}), nil
+					})
+				}
+				body, ct := "", "application/proto"
+				switch {
+				case proto == "grpc":
+					ct, body = "application/grpc", "\x00\x00\x00\x00\x00"
+				case proto == "grpcweb":
+					ct, body = "application/grpc-web", "\x00\x00\x00\x00\x00"
+				case kind == "client":
+					ct, body = "application/connect+proto", "\x00\x00\x00\x00\x00"
+				}
+				req := httptest.NewRequest(http.MethodPost, "/s/m", strings.NewReader(body))
+				req.ProtoMajor, req.ProtoMinor, req.Proto = 2, 0, "HTTP/2.0"
+				req.Header.Set("Content-Type", ct)
+				foreign := "Grpc-Timeout"
+				if proto != "connect" {
+					foreign = "Connect-Timeout-Ms"
+				}
+				req.Header.Set(foreign, val)
+				h.ServeHTTP(httptest.NewRecorder(), req)
+				c.Count("tmo-foreign-header")
+				if !ran || has {
+					c.Fail("tmo-foreign-header", fmt.Sprintf("%s %s request carrying only %s: %s", proto, kind, foreign, val), fmt.Sprintf("ran=%v deadline=%v", ran, has), "the other protocol's timeout header means nothing here: user code runs, without a deadline")
+				}
+			}
+		}
+	}
+	for _, proto := range []string{"connect", "grpc", "grpcweb"} {
+		for _, dl := range []time.Duration{0, time.Hour} {
+			var hdr string
+			var has bool
+			var remaining time.Duration
+			h := connect.NewUnaryHandler("/s/m", func(ctx context.Context, r *connect.Request[emptypb.Empty]) (*connect.Response[emptypb.Empty], error) {
+				hdr = r.Header().Get("Connect-Timeout-Ms") + r.Header().Get("Grpc-Timeout")
+				var d time.Time
+				d, has = ctx.Deadline()
+				remaining = time.Until(d)
+				return connect.NewResponse(&emptypb.Empty{}), nil
+			})
+			got := safely(func() string {
+				srv := httptest.NewUnstartedServer(h)
+				srv.EnableHTTP2 = true
+				srv.StartTLS()
+				defer srv.Close()
+				hc := *srv.Client()
+				hc.Timeout = 2 * time.Minute
+				cl := connect.NewClient[emptypb.Empty, emptypb.Empty](&hc, srv.URL+"/s/m", protoOptsPB(proto)...)
+				ctx, cancel := context.Background(), context.CancelFunc(func() {})
+				if dl > 0 {
+					ctx, cancel = context.WithTimeout(ctx, dl)
+				}
+				defer cancel()
+				if _, err := cl.CallUnary(ctx, connect.NewRequest(&emptypb.Empty{})); err != nil {
+					return "failed: " + err.Error()
+				}
+				if dl == 0 {
+					return fmt.Sprintf("header=%q deadline=%v", hdr, has)
+				}
+				return fmt.Sprintf("deadline=%v about-an-hour=%v", has, remaining > 50*time.Minute)
+			})
+			want := `header="" deadline=false`
+			if dl > 0 {
+				want = "deadline=true about-an-hour=true"
+			}
+			c.Count("tmo-http-client-timeout")
+			if got != want {
+				c.Fail("tmo-http-client-timeout", fmt.Sprintf("%s unary call through an *http.Client with Timeout 2m, context deadline %v", proto, dl), got, "the timeout sent is the context's remaining time, nothing else: "+want)
+			}
+		}
+	}
+}
+
 func serverBudgetProbes(c *Ctx) {
 	for _, proto := range []string{"connect", "grpc", "grpcweb"} {
 		for _, kind := range []string{"unary", "client"} {
@@ -787,6 +878,7 @@ func streamTimeout(c *Ctx) {
 	}
 	timeoutReuseProbes(c)
 	serverBudgetProbes(c)
+	foreignTimeoutProbe(c)
 	lateSendProbes(c)
 	contextShapeProbes(c)
 	for i := 0; i < 200; i++ {
